@@ -13,6 +13,7 @@ import (
 
 	"github.com/zmap/zlint/v3/lint"
 	"github.com/zmap/zlint/v3/util"
+	"golang.org/x/net/idna"
 )
 
 func init() {
@@ -106,6 +107,28 @@ func subTLD(out string, seed uint64, tier string, arg string) {
 		t := time.Unix(int64(rng.Intn(2000000000)), int64(rng.Intn(2))*500).UTC()
 		valid("r"+fmt.Sprint(i)+"."+k, t)
 	}
+	// internationalised TLDs are in the table as A-labels only: the U-label spelling of a delegated IDN TLD (and its upper-case
+	// form, and other non-ASCII last labels) is *not* a key, whatever some normalisation would make of it
+	var uLabels []string
+	for _, k := range keys {
+		if !strings.HasPrefix(k, "xn--") {
+			continue
+		}
+		ul, err := idna.ToUnicode(k)
+		if err != nil || ul == k || strings.ContainsRune(ul, 0x212A) {
+			continue
+		}
+		uLabels = append(uLabels, ul)
+		for _, dom := range []string{"www.example." + ul, ul, "пример." + strings.ToUpper(ul)} {
+			valid(dom, now)
+			valid(dom, time.Date(1990, 1, 1, 0, 0, 0, 0, time.UTC))
+		}
+		emit("tldin\t"+esc(ul), b2s(util.IsInTLDMap(ul)))
+	}
+	rep.count(fmt.Sprintf("idn-u-labels=%d", len(uLabels)))
+	for _, d := range []string{"example.\u00fc", "example.c\u00f6m", "example.com\u0301", "example.\uff43\uff4f\uff4d", "example.co\u200dm", "example.\xff", "example.com\x80"} {
+		valid(d, now)
+	}
 	// ---- the lint through the framework
 	g, _ := lint.GlobalRegistry().Filter(lint.FilterOptions{IncludeNames: []string{"e_dnsname_not_valid_tld"}})
 	nl := 120
@@ -168,6 +191,12 @@ func subTLD(out string, seed uint64, tier string, arg string) {
 		"192.0.2.1.", "192.0.2", "192.0.2.256", "0x7f.1", "::ffff:192.0.2.1", "1.2.3.4.example.notatld", "fe80::1%", "%eth0"} {
 		lintOp(cn, []string{"ok.example.com"}, nbIP)
 		lintOp(cn, []string{"ok.example.com", "www.example.org"}, nbIP)
+	}
+	// the lint on common names spelled with U-label TLDs (a UTF8String common name may hold them)
+	for i, ul := range uLabels {
+		if i%4 == 0 || tier == "thorough" {
+			lintOp("\u043f\u0440\u0438\u043c\u0435\u0440."+ul, []string{"ok.example.com"}, nbIP)
+		}
 	}
 	// runtime table for the Python-side comparison with the extracted literal
 	rep.Extra["runtime_tld_count"] = len(tm)
